@@ -200,7 +200,7 @@ CLAIMS["C01"] = dict(
           "childid[result]; equal_range = (lower, upper)), HIT-TEST, ITER-WALK-STOP (erase(iterator) may abandon the walk over a run of equal keys only "
           "when the separator proves the key cannot follow), DESCENT-SIBLINGS, UNDERFLOW-LEGAL (all consistent null/few/same-parent situations x 4 regions: "
           "exactly one legal action, correct argument order, parent and separator slot), NODE-CAPACITY (is_full/is_few/is_underflow fit the node's own "
-          "capacity for independent leaf/inner capacities: merge fits, donors keep the minimum), FRONTEND-FLAGS, FRONTEND-FORWARD, ITER-STEP-TWINS. "
+          "capacity for independent leaf/inner capacities: merge fits, donors keep the minimum), FRONTEND-FLAGS, FRONTEND-FORWARD, ITER-STEP. "
           "All for 8 tree instantiations (set/multiset/map/multimap x less/greater x default/small asymmetric traits); thorough adds three more capacity/"
           "search-threshold/key-type configurations."),
     note=(TRUST + "Assumed B+ tree shape facts used to prune impossible underflow situations are listed in the evidence. Not decided: returned iterator "
